@@ -17,12 +17,110 @@ import (
 // sequence run alone.  Build the harness with -race: a data race in library state makes the
 // race detector print a report (and, with GORACE=halt_on_error=1, kill the process).
 
+// raceFailing: statements that fail, one (or more) per error site of parser.go, checker.go,
+// statement.go, optimizer.go and the evaluator; each carries the goroutine's prefix so that no two
+// goroutines ever bind the same text.  %[1]s = the prefix.
+var raceFailing = []string{
+	// optimizer.go (plan time, after a successful parse)
+	"select key, count(1) where key ^= '%[1]s'",                                 // Missing group by statement (no position)
+	"select key, max(int(value)), min(int(value)) where key > '%[1]s3' limit 5", // the same site, another text
+	"select value, sum(strlen(key)) as s where key ^= '%[1]s' order by s",       // the same site, ordered
+	"select key, value, count(1) where key ^= '%[1]s' group by key",             // Missing aggregate fields in group by statement
+	"select key where key ^= '%[1]s' group by key",                              // No aggregate fields in select statement
+	"select key, upper(value) as u where key ^= '%[1]s' group by key, u",        // the same, second site
+	"select nosuchfunc(key) where key ^= '%[1]s'",                               // Cannot find function
+	"select key where key ^= '%[1]s' & nosuchfunc(value) = 'x'",                 // a call of unknown type compared with a text
+	"select upper(key, value) where key ^= '%[1]s'",                             // wrong arity
+	"select join() where key ^= '%[1]s'",                                        // require at least
+	"select substr(key, 'a', 2) where key ^= '%[1]s'",                           // parameter has wrong type
+	"select key, count(sum(1)) where key ^= '%[1]s' group by key",               // aggregate inside aggregate
+	"delete where key ^= '%[1]s' & nosuchfunc(key) = 'x'",                       // … in DELETE
+	"put ('%[1]sx', nosuchfunc('v'))",                                           // … in PUT
+	"remove upper('%[1]sx', 'y')",                                               // arity in REMOVE
+	// parser.go
+	"select * where key ^= '%[1]s' & value in",                            // Unexpected EOF (after in)
+	"select * where key ^= '%[1]s' &",                                     // Unexpected EOF (operand)
+	"put ('%[1]sk'",                                                       // Unexpected EOF (put pair)
+	"select * where key ^= '%[1]s' limit x",                               // Invalid limit parameters
+	"select * where key ^= '%[1]s' limit",                                 // … at the end of input
+	"select * where key ^= '%[1]s' limit 1,",                              // Invalid limit parameters after separator
+	"select * where key ^= '%[1]s' limit 1, x",                            // … require number
+	"select * where key ^= '%[1]s' limit 1, 2, 3",                         // Too many limit parameters
+	"select * where key ^= '%[1]s' limit 1 limit 2",                       // Has more expression in limit expression
+	"select key where key ^= '%[1]s' order by nosuch",                     // Cannot find field … in select statement
+	"select key where key ^= '%[1]s' order by",                            // Require order by fields
+	"select key where key ^= '%[1]s' group by",                            // Require group by fields
+	"select key where key ^= '%[1]s' order by key order by key",           // Duplicate order by expression
+	"select key, count(1) where key ^= '%[1]s' group by key group by key", // Duplicate group by expression
+	"select key where (key ^= '%[1]s'",                                    // Expect token ) but got EOF
+	"select key where (key ^= '%[1]s' limit 1",                            // Expect token ) bug got …
+	"select key where key ^= '%[1]s' value",                               // Missing operator
+	"select key where key ^= '%[1]s' )",                                   // Missing operator (a closing bracket)
+	"select key where upper(key '%[1]s') = 'A'",                           // Function argument expect `,` or `)`
+	"select key where json(value)['%[1]s', 'b'] = 'x'",                    // Field access operator should only have one field name
+	"select key as where key ^= '%[1]s'",                                  // Invalid field name / Require field name
+	"select key k where key ^= '%[1]s'",                                   // Expect `as` or `,`
+	"select where key ^= '%[1]s'",                                         // Empty fields in select statement
+	"select , where key ^= '%[1]s'",                                       // Bad Expression (select list)
+	"select key",                                                          // Expect where keyword (EOF)
+	"select key limit 1",                                                  // Expect `as` or `,` (no where)
+	"selec * where key ^= '%[1]s'",                                        // Expect put, delete, select or where keyword
+	"select * where",                                                      // Expect where statement
+	"put ('%[1]sk' 'v')",                                                  // Put key-value pair expect `,`
+	"select * where key ^= '%[1]s' & = 'a'",                               // Bad Expression
+	"select * where key ^= '%[1]s' & 1 +* 2 = 3",                          // Expect operator / Bad Expression
+	"select unknownaggr(1), key where key ^= '%[1]s' group by key",        // unknown function in an aggregated statement
+	// checker.go / statement.go
+	"select * where key ^= '%[1]s' & !key",                    // ! operator right expression has wrong type
+	"select * where key ^= '%[1]s' & key > 1",                 // left and right type not same
+	"select * where key ^= '%[1]s' & key = key",               // two same field
+	"select * where key ^= '%[1]s' & value in ('a', 1)",       // in operator element has wrong type
+	"select * where key ^= '%[1]s' & value in 'a'",            // in … must be list expression
+	"select * where key ^= '%[1]s' & value between 1 and 'b'", // between … wrong type
+	"select * where key ^= '%[1]s' & 1 / 0 = 1",               // divide by zero (static)
+	"select * where key ^= '%[1]s' & value[0] = 'a'",          // Field access expression left require JSON or List type
+	"select * where key ^= '%[1]s' & key in ()",               // Empty list
+	"select * where key + '%[1]s'",                            // where statement result type should be boolean
+	"select * where '%[1]s'",                                  // the same, other shape
+	"select u + '%[1]s' as u where key = 'a'",                 // Field u is defined in terms of itself
+	"select * where key ^= '%[1]s' & 'x'(1) = 1",              // Invalid function name
+	"put ('%[1]sk', value)",                                   // not allow value keyword in expression
+	"put (key = '%[1]s', 'v')",                                // need str or number type
+	"remove key = '%[1]s'",                                    // need str or number type
+	"put ('%[1]sk', true)",                                    // need str or number type (value)
+	"delete where '%[1]s' + key",                              // where statement result type should be boolean (delete)
+	"select * where key ^= '%[1]s' & 1 + 'a' = 2",             // + operator has wrong type
+	"select * where key ^= '%[1]s' & (value ^= 1)",            // ^= wrong type
+	// the evaluator (run time, ExecuteError): the seed store's shared region has non-numeric values
+	"select key, 10 / int(value) as d where key ^= 'ro-' & '%[1]s' != key",                       // division by zero at run time
+	"select * where key ^= 'ro-' & key between value and '%[1]s'",                                // between: lower boundary above upper boundary
+	"select key, strlen(value) / (strlen(value) - 2) where key ^= 'ro-' & '%[1]s' != key",        // division by zero, other site
+	"select key, l2_distance(list(1, 2), split(value, ',')) where key ^= 'rv-' & '%[1]s' != key", // vectors of different lengths
+}
+
 func raceStatements(r *Rand, g int, n int) []string {
 	pfx := fmt.Sprintf("g%02d-", g)
 	var out []string
 	for i := 0; i < n; i++ {
 		k := fmt.Sprintf("%s%d", pfx, r.Intn(6))
-		switch r.Intn(14) {
+		c := r.Intn(19)
+		if c >= 14 {
+			// a failing statement: the client binds the query text to the error, sets its padding and renders it
+			f := pick(r, raceFailing)
+			if r.Chance(1, 3) {
+				f = raceFailing[r.Intn(6)] // the positionless plan-time errors more often
+			}
+			q := f
+			if strings.Contains(f, "%[1]s") {
+				q = fmt.Sprintf(f, pfx)
+			}
+			if r.Chance(1, 4) {
+				q = pick(r, []string{" ", "\n  ", "\t"}) + q
+			}
+			out = append(out, q)
+			continue
+		}
+		switch c {
 		case 0:
 			out = append(out, fmt.Sprintf("put ('%s', '%d'), ('%s%d', upper('v' + key))", k, r.Intn(50), pfx, r.Intn(6)))
 		case 1:
@@ -83,19 +181,32 @@ func raceSeedStore() []KV {
 	return kvs
 }
 
-func runSeq(st *RefStore, stmts []string, batch bool) []string {
+// renderAsClient does with a failed statement what a client does: bind the query text to the error,
+// set the padding of its own display, render.  The goroutine yields between the steps (a client does
+// other things in between): an error VALUE shared between statements is then written by another
+// statement before this one renders it.
+func renderAsClient(err error, q string, pad int) string {
+	out, _ := safely(func() string {
+		if qb, ok := err.(kvql.QueryBinder); ok {
+			qb.BindQuery(q)
+			runtime.Gosched()
+			qb.SetPadding(pad)
+			runtime.Gosched()
+		}
+		return err.Error()
+	})
+	return out
+}
+
+func runSeq(st *RefStore, stmts []string, batch bool, pad int) []string {
 	res := make([]string, len(stmts))
 	for i, q := range stmts {
 		r := runStatement(q, st, batch, true)
 		out := r.Outcome()
-		if r.Err != nil {
-			// also exercise error rendering
-			if qb, ok := r.Err.(kvql.QueryBinder); ok {
-				qb.BindQuery(q)
-				_ = r.Err.Error()
-			}
-		}
 		res[i] = out + " | " + rowsContent(r.Rows)
+		if r.Err != nil {
+			res[i] += " | rendered: " + renderAsClient(r.Err, q, pad)
+		}
 	}
 	return res
 }
@@ -107,7 +218,7 @@ func runRACE(e *Env) (*Summary, error) {
 	if e.Tier == "thorough" {
 		perG = 1500
 	}
-	rule := fmt.Sprintf("%d rounds; each round runs G ∈ {2,4,8,16} goroutines × %d statements (put/remove/delete on the goroutine's own key prefix; plain, ordered, aggregated, JSON, vector and failing selects on it and on a shared read-only region) over one mutex-protected store with GOMAXPROCS ∈ {1,2,4,16}, in row or batch mode, and compares every statement's outcome and rows with the same sequence run alone; the binary must be built with -race; non-trivial = a statement that returned rows or wrote; distinct by statement text", rounds, perG)
+	rule := fmt.Sprintf("%d rounds; each round runs G ∈ {2,4,8,16} goroutines × %d statements (put/remove/delete on the goroutine's own key prefix; plain, ordered, aggregated, JSON, vector selects on it and on a shared read-only region; one statement in four fails at one of "+fmt.Sprint(len(raceFailing))+" error sites of the parser, the checker, the planner and the evaluator, and the goroutine binds its query text to the error, sets its own padding and renders it) over one mutex-protected store with GOMAXPROCS ∈ {1,2,4,16}, in row or batch mode, and compares every statement's outcome, rows and rendered error with the same sequence run alone; the binary must be built with -race; non-trivial = a statement that returned rows or wrote; distinct by statement text", rounds, perG)
 	col := NewCollector("RACE", e.Tier, e.Seed, rule)
 	saved := kvql.PlanBatchSize
 	kvql.PlanBatchSize = 3
@@ -131,24 +242,32 @@ func runRACE(e *Env) (*Summary, error) {
 			wg.Add(1)
 			go func(g int) {
 				defer wg.Done()
-				got[g] = runSeq(shared, all[g], batch)
+				got[g] = runSeq(shared, all[g], batch, 2+g)
 			}(g)
 		}
 		wg.Wait()
 		// the reference AFTERWARDS (alone, on a private copy of the seed store): whatever process-wide state
 		// the library keeps (caches, registries) is first touched by the concurrent phase, not warmed for it
 		for g := 0; g < G; g++ {
-			want[g] = runSeq(NewRefStore(raceSeedStore()), all[g], batch)
+			want[g] = runSeq(NewRefStore(raceSeedStore()), all[g], batch, 2+g)
 		}
 		for g := 0; g < G; g++ {
 			for i := range all[g] {
 				col.Eval(1)
-				if !strings.HasSuffix(want[g][i], "| -") {
+				if !strings.Contains(want[g][i], " | - | rendered: ") && !strings.HasSuffix(want[g][i], "| -") {
 					col.Nontrivial(all[g][i])
 				}
 				col.Hist("outcome:" + strings.SplitN(want[g][i], " | ", 2)[0][:min(9, len(strings.SplitN(want[g][i], " | ", 2)[0]))])
+				if strings.Contains(want[g][i], " | rendered: ") {
+					col.Hist("failing-statement-rendered")
+				}
 				if got[g][i] != want[g][i] {
-					col.Find(Finding{Kind: "property", Group: "RACE", Check: "concurrent-vs-alone", Case: fmt.Sprintf("goroutine %d/%d stmt %d: %s", g, G, i, all[g][i]),
+					check := "concurrent-vs-alone"
+					if a, b := strings.SplitN(got[g][i], " | rendered: ", 2), strings.SplitN(want[g][i], " | rendered: ", 2); len(a) == 2 && len(b) == 2 && a[0] == b[0] {
+						// same outcome and rows, another rendering of the error: the error value was written by another statement
+						check = "rendered-error-concurrent-vs-alone"
+					}
+					col.Find(Finding{Kind: "property", Group: "RACE", Check: check, Case: fmt.Sprintf("goroutine %d/%d stmt %d: %s", g, G, i, all[g][i]),
 						Line: "RACE " + hxs(all[g][i]), Engine: got[g][i], Model: want[g][i], Seed: e.Seed, Index: uint64(round), Properties: []string{"C19"}})
 				}
 			}
